@@ -57,12 +57,15 @@ def json_out(out):
         return None
 
 
-def edgy(rng, n, where="both"):
-    """n random bytes whose last (and/or first) byte is a text-framing byte"""
+def edgy(rng, n, where="both", byte=None):
+    """n random bytes whose last (and/or first) byte is a text-framing byte (a given one, or drawn)"""
     b = bytearray(rng.getrandbits(8 * n).to_bytes(n, "big")) if n else bytearray()
     if n:
         if where in ("both", "end"):
-            b[-1] = rng.choice(WS_BYTES + [0x30, 0x78])
+            b[-1] = rng.choice(WS_BYTES + [0x30, 0x78]) if byte is None else byte
         if where in ("both", "start"):
-            b[0] = rng.choice(WS_BYTES + [0x30, 0x78])
+            b[0] = rng.choice(WS_BYTES + [0x30, 0x78]) if byte is None else byte
     return bytes(b)
+
+
+EDGE_BYTES = [0x0A, 0x0D, 0x20, 0x09, 0x00, 0x30, 0x78, None]     # None: no framing byte forced
